@@ -13,17 +13,20 @@ verus! {
 //@include prelude/str.rs
 //@include contracts/common_types.inc
 //@include prelude/deps_ascii_str.rs
+//@include prelude/option.rs
+//@include prelude/trim.rs
+//@include prelude/split.rs
 
 //@item src/client.rs enum ReadError
+
+//@include contracts/parse_spec.inc
 
 //@fn src/client.rs parse_http_version ret r props C10,C02
 //@spec
     ensures
-        // O-VERSION-TABLE (C10): exactly the five recognised tokens (case-sensitive) are accepted; anything else is a malformed request line
+        // anything else is a malformed request line
         match r {
-            Ok(v) => (version@ == "HTTP/0.9"@ && v == HTTPVersion(0, 9)) || (version@ == "HTTP/1.0"@ && v == HTTPVersion(1, 0))
-                || (version@ == "HTTP/1.1"@ && v == HTTPVersion(1, 1)) || (version@ == "HTTP/2.0"@ && v == HTTPVersion(2, 0))
-                || (version@ == "HTTP/3.0"@ && v == HTTPVersion(3, 0)),
+            Ok(v) => version_of(v, version@),
             Err(e) => e is WrongRequestLine,
         },
 //@endfn
@@ -71,20 +74,60 @@ impl HeaderField {
 //@fn from_str ret r props C02,C10
 //@spec
     ensures
-        // O-METHOD: the nine standard tokens (case-sensitive) map to their variants, any other ASCII token is kept
-        // verbatim as an extension method, and only a non-ASCII token is refused
+        // ... and only a non-ASCII token is refused
         match r {
-            Ok(m) => match m {
-                Method::Get => s@ == "GET"@, Method::Head => s@ == "HEAD"@, Method::Post => s@ == "POST"@, Method::Put => s@ == "PUT"@,
-                Method::Delete => s@ == "DELETE"@, Method::Connect => s@ == "CONNECT"@, Method::Options => s@ == "OPTIONS"@,
-                Method::Trace => s@ == "TRACE"@, Method::Patch => s@ == "PATCH"@,
-                Method::NonStandard(a) => a@ == s@,
-            },
+            Ok(m) => method_of(m, s@),
             Err(_) => !str_is_ascii(s@),
         },
 //@entry
         broadcast use axiom_bytes_of_str, axiom_chars_of_str;
 //@closure 1 |__u: FromAsciiError<&str>| -> (u: ()) ensures true
+//@endfn
+//@endimpl
+
+//@fn src/client.rs parse_request_line ret r props C02,C10
+//@spec
+    ensures
+        match r {
+            // O-REQLINE (C02): method token, target and version are the first three space-separated parts of the line, as sent
+            // (whatever follows a third space is ignored): the method by the (case-sensitive) token table, the target byte
+            // for byte, the version by the version table
+            Ok(t) => {
+                let p0 = head_of(line@, ' ');
+                let t0 = tail_of(line@, ' ');
+                &&& t0 is Some && tail_of(t0->Some_0, ' ') is Some
+                &&& method_of(t.0, p0)
+                &&& t.1@ == head_of(t0->Some_0, ' ')
+                &&& version_of(t.2, head_of(tail_of(t0->Some_0, ' ')->Some_0, ' '))
+            },
+            // a line is refused as malformed; (that it is refused ONLY for having fewer than three parts, a non-ASCII method
+            // token or a version outside the table cannot be stated: string-literal patterns give this Verus no negative
+            // information -- the positive half of the version table is K-VER)
+            Err(e) => e is WrongRequestLine,
+        },
+//@closure ~w.parse()~ |w: &str| -> (o: Option<Method>) ensures match o { Some(m) => method_of(m, w@), None => !str_is_ascii(w@) }
+//@closure ~parse_http_version(w)~ |w: &str| -> (o: Option<HTTPVersion>) ensures match o { Some(v) => version_of(v, w@), None => true }
+//@closure ~Some((method, path?, version?))~ |method: Method| -> (o: Option<(Method, String, HTTPVersion)>) ensures o == (if path is Some && version is Some { Some((method, path->Some_0, version->Some_0)) } else { None })
+//@endfn
+
+//@impl src/common.rs "FromStr for Header"
+//@fn from_str ret r props C02,C16
+//@spec
+    ensures
+        match r {
+            // O-HDR-SPLIT (C02, C16): the name is the text before the FIRST colon, taken as it is -- it may not contain
+            // whitespace anywhere (so neither ` Name: v`, `Na me: v` nor `Name : v` is accepted) --, the value is the rest
+            // of the line without its surrounding whitespace: nothing else is removed, decoded or merged
+            Ok(h) => tail_of(input@, ':') is Some && !has_whitespace(head_of(input@, ':'))
+                && h.field.name() == head_of(input@, ':') && is_trimmed_of(h.value@, tail_of(input@, ':')->Some_0),
+            // ... and a line is refused only for one of these reasons
+            Err(_) => tail_of(input@, ':') is None || !str_is_ascii(input@) || has_whitespace(head_of(input@, ':')),
+        },
+//@entry
+        broadcast use axiom_bytes_of_str, axiom_chars_of_str;
+        proof { lemma_parts_ascii(input@, ':'); }
+//@closure ~f.parse()~ |f: &str| -> (o: Option<HeaderField>) ensures match o { Some(x) => !has_whitespace(f@) && x.name() == f@, None => has_whitespace(f@) || !str_is_ascii(f@) }
+//@closure ~v.trim()~ |v: &str| -> (o: Option<AsciiString>) ensures match o { Some(x) => is_trimmed_of(x@, v@), None => !str_is_ascii(v@) }
 //@endfn
 //@endimpl
 
